@@ -68,6 +68,7 @@ class UnitSpec:
         self.aliases = []
         self.stub_aliases = []
         self.callable_policy = []
+        self.inline_only = []
         self.functions = {}    # cname -> FnSpec
         self.order = []
         self.lemmas = {}
@@ -144,6 +145,8 @@ def parse(u, path):
                     asn = asn.strip()
                 parts = rest.split()
                 u.emit.append((parts[0], parts[1] if len(parts) > 1 else None, asn))
+            elif kw == 'inline-only':
+                u.inline_only.append(rest)
             elif kw == 'callable':
                 # callable <policy> <regex on stub name>
                 pol, _, rx = rest.partition(' ')
